@@ -181,6 +181,26 @@ class BareMove:
         return cls([True], [])
 
 
+class BareMoveEqUnhashable(BareMove):
+    """A user move with value equality and (like a plain @dataclass) no hash."""
+
+    def __eq__(self, other):
+        return type(other) is type(self)
+
+    __hash__ = None
+
+
+class BareMoveEqHash(BareMove):
+    """A user move with value equality and a matching hash (like a frozen dataclass): two distinct objects
+    with the same configuration compare equal."""
+
+    def __eq__(self, other):
+        return type(other) is type(self)
+
+    def __hash__(self):
+        return 7
+
+
 class BareCriteria:
     """A user-defined criteria implementing only the protocol."""
 
@@ -292,7 +312,8 @@ def build_move(spec: dict, env: MoveEnv, path: str):
         return qm.CompositeMove([build_move(s, env, f"{path}.{i}") for i, s in enumerate(spec["items"])])
     if t == "bare":
         log = []
-        mv = BareMove(spec.get("results", [True]), log, spec.get("kind", "disp"), spec.get("step", 0.05))
+        bare_cls = {"plain": BareMove, "eq_unhashable": BareMoveEqUnhashable, "eq_hash": BareMoveEqHash}[spec.get("equality", "plain")]
+        mv = bare_cls(spec.get("results", [True]), log, spec.get("kind", "disp"), spec.get("step", 0.05))
         w.bare_logs[path] = log
         w.bare_objs[path] = mv
         return mv
@@ -363,6 +384,20 @@ class TapeCriteria:
         raise NotImplementedError
 
 
+def _seed_value(sc):
+    """The seed as the user hands it over: a Python int or a numpy integer scalar (seeds drawn with
+    Generator.integers / taken from an array are numpy integers)."""
+    kind = sc.get("seed_kind", "int")
+    s = sc["seed"]
+    if kind == "np.int64" and s < 2**63:
+        return np.int64(s)
+    if kind == "np.uint64" and s < 2**64:
+        return np.uint64(s)
+    if kind == "np.uint32" and s < 2**32:
+        return np.uint32(s)
+    return s
+
+
 DRIVERS = ("MonteCarlo", "Canonical", "HamiltonianCanonical", "Isobaric", "Isotension",
            "GrandCanonical")
 
@@ -422,7 +457,7 @@ class World:
         kw = {}
         if "max_cycles" in p:
             kw["max_cycles"] = p["max_cycles"]
-        kw["seed"] = sc["seed"]
+        kw["seed"] = _seed_value(sc)
         name = sc["driver"]
         files = sc.get("files", {})
         if self.disk is not None:
@@ -657,7 +692,7 @@ class World:
                 if what == "displace" and type(lf) is DisplacementMove and len(lf.unique_labels):
                     lf.to_displace_labels = int(lf.unique_labels[int(pre["pick"] * len(lf.unique_labels))])
                     self.result.count("fault.preselect_displace")
-                    break
+                    continue  # every displacement sub-move of the entry gets the user's target
                 if what == "add" and isinstance(lf, ExchangeMove) and hasattr(self, "template"):
                     lf.to_add_atoms = self.template.copy()
                     self.result.count("fault.preselect_add")
@@ -888,7 +923,7 @@ class FBWorld:
             self.calc = calcs.make_calc(cs)
         self.atoms.calc = self.calc
         p = dict(sc.get("params", {}))
-        kw = {"seed": sc["seed"]}
+        kw = {"seed": _seed_value(sc)}
         files = sc.get("files", {})
         if disk is not None:
             for role in ("logfile", "trajectory", "restart_file"):
